@@ -830,6 +830,48 @@ func (env *SpecEnv) call(e *Expr) (SpecVal, error) {
 	vc := env.vc
 	fnE := e.Args[0]
 	args := e.Args[1:]
+	if fnE.Kind == EField {
+		// method call on a value of type-parameter type: the same pure function the code uses
+		recv, err := env.Eval(fnE.Args[0])
+		if err != nil {
+			return SpecVal{}, err
+		}
+		if recv.Ty != nil {
+			if tp, ok := types.Unalias(recv.Ty).(*types.TypeParam); ok {
+				if it, ok := tp.Constraint().Underlying().(*types.Interface); ok {
+					for i := 0; i < it.NumMethods(); i++ {
+						m := it.Method(i)
+						if m.Name() != fnE.Op {
+							continue
+						}
+						sig := m.Type().(*types.Signature)
+						if sig.Results().Len() != 1 {
+							break
+						}
+						rt := sig.Results().At(0).Type()
+						rs, err := vc.tt.SortOf(rt)
+						if err != nil {
+							return SpecVal{}, err
+						}
+						sorts := []Sort{recv.T.Sort}
+						all := []Term{recv.T}
+						for _, a := range args {
+							v, err := env.Eval(a)
+							if err != nil {
+								return SpecVal{}, err
+							}
+							sorts = append(sorts, v.T.Sort)
+							all = append(all, v.T)
+						}
+						name := "tpm!" + sanitize(tp.Obj().Name()+"."+fnE.Op)
+						vc.DeclareFun(name, sorts, rs)
+						return SpecVal{T: App(rs, name, all...), Ty: rt}, nil
+					}
+				}
+			}
+		}
+		return SpecVal{}, fmt.Errorf("unsupported method call %s in a specification", e.String())
+	}
 	if fnE.Kind != EIdent {
 		return SpecVal{}, fmt.Errorf("unsupported call target %s", fnE.String())
 	}
@@ -1186,15 +1228,19 @@ func (env *SpecEnv) callGhost(gf *GhostFunc, args []*Expr) (SpecVal, error) {
 		if err != nil {
 			return SpecVal{}, err
 		}
-		ty, err := genv.resolveTypeName(p.Type)
-		if err != nil {
-			return SpecVal{}, err
-		}
 		var srt Sort = SInt
-		if ty != nil {
-			srt, err = vc.tt.SortOf(ty)
+		if p.Type == "_" {
+			srt = v.T.Sort
+		} else {
+			ty, err := genv.resolveTypeName(p.Type)
 			if err != nil {
 				return SpecVal{}, err
+			}
+			if ty != nil {
+				srt, err = vc.tt.SortOf(ty)
+				if err != nil {
+					return SpecVal{}, err
+				}
 			}
 		}
 		t := v.T
@@ -1223,6 +1269,11 @@ func (env *SpecEnv) callGhost(gf *GhostFunc, args []*Expr) (SpecVal, error) {
 		}
 	}
 	name := "ghost!" + sanitize(gf.PkgPath+"."+gf.Name)
+	for i, p := range gf.Params {
+		if p.Type == "_" {
+			name += "!" + sanitize(string(sorts[i]))
+		}
+	}
 	vc.DeclareFun(name, sorts, rs)
 	if len(terms) == 0 {
 		return SpecVal{T: Term{name, rs}, Ty: rty}, nil
